@@ -159,101 +159,6 @@ type plan struct {
 // byte alphabet for raw strings: tags for fields 1,2 in several wire types, small varints, continuation bytes
 var byteAlpha = []byte{0x00, 0x01, 0x02, 0x08, 0x0a, 0x0b, 0x0c, 0x0d, 0x12, 0x7a, 0x80, 0xff}
 
-// nestings builds inputs that nest through message, group, map-entry and lazy
-// wrappers, depth 0..maxDepth, with 1..breadth sibling copies of the wrapper
-// at the innermost / outermost level.
-func nestings(md protoreflect.MessageDescriptor, maxDepth int) []univ.Rec {
-	type wrapper struct {
-		name string
-		wrap func(inner []byte) []byte
-		next protoreflect.MessageDescriptor
-		cost int
-	}
-	wrappersOf := func(md protoreflect.MessageDescriptor) []wrapper {
-		var ws []wrapper
-		seen := map[string]bool{}
-		for _, fd := range univ.SortedFields(md) {
-			fd := fd
-			n := fd.Number()
-			var cls string
-			var w wrapper
-			switch {
-			case fd.IsMap() && fd.MapValue().Message() != nil:
-				cls = "map"
-				w = wrapper{fmt.Sprintf("%d:map", n), func(inner []byte) []byte {
-					e := protowire.AppendBytes(protowire.AppendTag(protowire.AppendVarint(protowire.AppendTag(nil, 1, wtype(fd.MapKey().Kind())), 0)[:0], 2, protowire.BytesType), inner)
-					// key omitted (default key); entry = value only
-					return protowire.AppendBytes(protowire.AppendTag(nil, n, protowire.BytesType), e)
-				}, fd.MapValue().Message(), 2}
-			case fd.Kind() == protoreflect.GroupKind:
-				cls = "group"
-				w = wrapper{fmt.Sprintf("%d:group", n), func(inner []byte) []byte {
-					return protowire.AppendTag(append(protowire.AppendTag(nil, n, protowire.StartGroupType), inner...), n, protowire.EndGroupType)
-				}, fd.Message(), 1}
-			case fd.Message() != nil && !fd.IsMap():
-				cls = "msg"
-				if univ.IsLazy(fd) {
-					cls = "lazy"
-				}
-				if fd.IsList() {
-					cls += "rep"
-				}
-				w = wrapper{fmt.Sprintf("%d:%s", n, cls), func(inner []byte) []byte {
-					return protowire.AppendBytes(protowire.AppendTag(nil, n, protowire.BytesType), inner)
-				}, fd.Message(), 1}
-			default:
-				continue
-			}
-			key := cls + string(w.next.FullName())
-			if seen[key] {
-				continue
-			}
-			seen[key] = true
-			ws = append(ws, w)
-		}
-		return ws
-	}
-	var out []univ.Rec
-	var rec func(md protoreflect.MessageDescriptor, depth int, name string, build func(inner []byte) []byte)
-	rec = func(md protoreflect.MessageDescriptor, depth int, name string, build func(inner []byte) []byte) {
-		out = append(out, univ.Rec{Name: name + "{}", B: build(nil)})
-		if depth == maxDepth {
-			return
-		}
-		for _, w := range wrappersOf(md) {
-			w := w
-			rec(w.next, depth+1, name+"/"+w.name, func(inner []byte) []byte { return build(w.wrap(inner)) })
-			// sibling copies at this level (breadth, not depth)
-			for _, br := range []int{2, 3, 7} {
-				br := br
-				out = append(out, univ.Rec{Name: fmt.Sprintf("%s/%sx%d{}", name, w.name, br), B: build(repeatBytes(w.wrap(nil), br))})
-			}
-		}
-	}
-	rec(md, 0, "", func(inner []byte) []byte { return inner })
-	return out
-}
-
-func repeatBytes(b []byte, n int) []byte {
-	var out []byte
-	for i := 0; i < n; i++ {
-		out = append(out, b...)
-	}
-	return out
-}
-
-func wtype(k protoreflect.Kind) protowire.Type {
-	switch k {
-	case protoreflect.Fixed32Kind, protoreflect.Sfixed32Kind, protoreflect.FloatKind:
-		return protowire.Fixed32Type
-	case protoreflect.Fixed64Kind, protoreflect.Sfixed64Kind, protoreflect.DoubleKind:
-		return protowire.Fixed64Type
-	case protoreflect.StringKind, protoreflect.BytesKind, protoreflect.MessageKind:
-		return protowire.BytesType
-	}
-	return protowire.VarintType
-}
-
 func plans(c *core.Ctx) []plan {
 	q := c.Quick()
 	p := []plan{
@@ -317,7 +222,7 @@ func run(c *core.Ctx) {
 			})
 			c.DistinctN(int64(nb))
 		}
-		nest := nestings(md, core.Pick(c, 4, 5))
+		nest := univ.Nestings(md, core.Pick(c, 4, 5), nil)
 		if len(nest) > 4000 {
 			nest = nest[:4000]
 		}
